@@ -57,6 +57,7 @@ pub struct Out {
     samples: BTreeMap<String, Vec<(String, String)>>,
     pub notes: BTreeMap<String, String>,
     pub exhaustive: bool,
+    pending: bool,
 }
 
 impl Out {
@@ -75,12 +76,19 @@ impl Out {
             samples: BTreeMap::new(),
             notes: BTreeMap::new(),
             exhaustive: false,
+            pending: false,
         }
     }
 
     /// one case: `kind` names the generator branch (histogram in the evidence), `nontrivial` is the
     /// stream's own rule, `f` calls the implementation; a panic becomes the answer `trap panic`.
     pub fn case(&mut self, kind: &str, nontrivial: bool, req: String, f: impl FnOnce() -> String) {
+        // the request is on disk before the implementation runs: if the process dies inside `f`
+        // (an abort cannot be caught), `check` finds one request more than answers and knows the input
+        writeln!(self.req, "{req}").unwrap();
+        self.req.flush().unwrap();
+        self.imp.flush().unwrap();
+        self.pending = true;
         let ans = match catch_unwind(AssertUnwindSafe(f)) {
             Ok(s) => s,
             Err(e) => {
@@ -101,7 +109,10 @@ impl Out {
 
     pub fn record(&mut self, kind: &str, nontrivial: bool, req: String, ans: String) {
         debug_assert!(!req.contains('\n') && !ans.contains('\n'));
-        writeln!(self.req, "{req}").unwrap();
+        if !self.pending {
+            writeln!(self.req, "{req}").unwrap();
+        }
+        self.pending = false;
         writeln!(self.imp, "{ans}").unwrap();
         self.n += 1;
         *self.kinds.entry(kind.to_string()).or_insert(0) += 1;
@@ -163,5 +174,24 @@ pub fn b2s(b: bool) -> &'static str {
         "true"
     } else {
         "false"
+    }
+}
+
+/// run a piece of generator code that calls the implementation; a panic yields `None`
+pub fn guard<T>(f: impl FnOnce() -> T) -> Option<T> {
+    catch_unwind(AssertUnwindSafe(f)).ok()
+}
+
+static CTX_PATH: std::sync::OnceLock<String> = std::sync::OnceLock::new();
+
+pub fn set_ctx_dir(dir: &str) {
+    let _ = CTX_PATH.set(format!("{dir}/ctx.txt"));
+}
+
+/// note the request the generator is about to work on, so that a process abort inside generator
+/// code (outside any `case`) still leaves a concrete input behind
+pub fn ctx(req: &str) {
+    if let Some(p) = CTX_PATH.get() {
+        let _ = std::fs::write(p, req);
     }
 }
